@@ -2,7 +2,7 @@
 # usage: seedconfirm.sh <ID> [checks...]  — confirm a seeded change in /tmp/wt-<ID> and run checks against it
 # 1. demo fails with the change, passes without; 2. suite passes with the change; 3. copy to /verif/seeded/<ID>; 4. run checks on /repo + patch
 ID=$1; shift
-WT=/tmp/wt-$ID
+WT=${WT:-/tmp/wt-$ID}; NAME=${NAME:-$ID}
 export GOFLAGS=-mod=mod GOPROXY=off GOSUMDB=off GOTOOLCHAIN=local
 set -u
 cd $WT || exit 9
@@ -11,28 +11,28 @@ echo "== demo cmd: $DEMO_CMD"
 FILES=$(grep '^+++ b/' SEEDED/patch.diff | sed 's#+++ b/##')
 echo "== files: $FILES"
 echo "== demo WITH change (expect FAIL)"
-( eval "$DEMO_CMD" ) > /tmp/seed-$ID-with.log 2>&1; RC_WITH=$?
-tail -3 /tmp/seed-$ID-with.log | cut -c1-200
+( eval "$DEMO_CMD" ) > /tmp/seed-$NAME-with.log 2>&1; RC_WITH=$?
+tail -3 /tmp/seed-$NAME-with.log | cut -c1-200
 echo "rc=$RC_WITH"
 git stash push -q -- $FILES
 echo "== demo WITHOUT change (expect PASS)"
-( eval "$DEMO_CMD" ) > /tmp/seed-$ID-without.log 2>&1; RC_WITHOUT=$?
-tail -3 /tmp/seed-$ID-without.log | cut -c1-200
+( eval "$DEMO_CMD" ) > /tmp/seed-$NAME-without.log 2>&1; RC_WITHOUT=$?
+tail -3 /tmp/seed-$NAME-without.log | cut -c1-200
 echo "rc=$RC_WITHOUT"
 git stash pop -q
 echo "== suite WITH change"
-go build ./... && go test -vet=off -count=1 -timeout 25m -skip 'Seeded|seeded' . ./internal/leakcheck ./tests/... 2>&1 | grep -v "no test files" > /tmp/seed-$ID-suite.log; 
-grep -c '^ok' /tmp/seed-$ID-suite.log; grep -v '^ok' /tmp/seed-$ID-suite.log | head -5
-mkdir -p /verif/seeded/$ID
-cp SEEDED/patch.diff /verif/seeded/$ID/
-for f in SEEDED/*; do case "$f" in *patch.diff|*meta.json) ;; *) cp -r "$f" /verif/seeded/$ID/ ;; esac; done
-cp SEEDED/meta.json /verif/seeded/$ID/meta.agent.json
-echo "RC_WITH=$RC_WITH RC_WITHOUT=$RC_WITHOUT" > /tmp/seed-$ID-rc.txt
+go build ./... && go test -vet=off -count=1 -timeout 25m -skip 'Seeded|seeded' . ./internal/leakcheck ./tests/... 2>&1 | grep -v "no test files" > /tmp/seed-$NAME-suite.log; 
+grep -c '^ok' /tmp/seed-$NAME-suite.log; grep -v '^ok' /tmp/seed-$NAME-suite.log | head -5
+mkdir -p /verif/seeded/$NAME
+cp SEEDED/patch.diff /verif/seeded/$NAME/
+for f in SEEDED/*; do case "$f" in *patch.diff|*meta.json) ;; *) cp -r "$f" /verif/seeded/$NAME/ ;; esac; done
+cp SEEDED/meta.json /verif/seeded/$NAME/meta.agent.json
+echo "RC_WITH=$RC_WITH RC_WITHOUT=$RC_WITHOUT" > /tmp/seed-$NAME-rc.txt
 # 4. checks against /repo + patch
 cd /verif
 git -C /repo diff --quiet || { echo "/repo not clean"; exit 8; }
 git -C /repo apply $WT/SEEDED/patch.diff || { echo "patch does not apply to /repo"; exit 7; }
 for c in "$@"; do
-  /verif/check $c quick > /tmp/seed-$ID-check-$c.log 2>&1; echo "== check $c rc=$? :: $(grep -E 'violation key|INCONCLUSIVE|inconclusive' /tmp/seed-$ID-check-$c.log | head -2 | cut -c1-300)"; grep "^$c " /tmp/seed-$ID-check-$c.log | cut -c1-160
+  /verif/check $c quick > /tmp/seed-$NAME-check-$c.log 2>&1; echo "== check $c rc=$? :: $(grep -E 'violation key|INCONCLUSIVE|inconclusive' /tmp/seed-$NAME-check-$c.log | head -2 | cut -c1-300)"; grep "^$c " /tmp/seed-$NAME-check-$c.log | cut -c1-160
 done
 git -C /repo checkout -- . ; git -C /repo status --short
